@@ -72,8 +72,7 @@ func runC14(r *Run) {
 	})
 	r.Branch(add, "eq(a0.Block.Previous(),$fr.Identifier())", "extending the pooled frontier is a plain append")
 	r.Branch(add, "eq(a0.Block.Previous(),db.GetFrontierIdentifier(recv.getAccountManager(a0.Block.Address).Frontier()))", "the pop loop stops exactly when the frontier is the new block's previous")
-	r.Returns(add, []string{"recv.getAccountManager(a0.Block.Address).Add(a0)", "fmt.Errorf(\"%w reason:%v; frontier-identifier:%v; identifier:%v\",list(chain.ErrFailedToAddAccountBlockTransaction,$fr.ByHeight(a0.Block.Identifier().Height)#1,$fr.Identifier(),a0.Block.Identifier()))", "nil", "recv.canRollback(a0.Block)", "chain.higherPriority(a0.Block,$fr.ByHeight(a0.Block.Identifier().Height)#0)",
-		"fmt.Errorf(\"%w can't pop manager; reason:%v; frontier-identifier:%v; identifier:%v\",list(chain.ErrFailedToAddAccountBlockTransaction,recv.getAccountManager(a0.Block.Address).Pop(),db.GetFrontierIdentifier(recv.getAccountManager(a0.Block.Address).Frontier()),a0.Block.Identifier()))"}, "the block enters through Manager.Add (parent check applies) in both the append and the replace path")
+	r.Returns(add, []string{"recv.getAccountManager(a0.Block.Address).Add(a0)", "fmt.Errorf(%w,chain.ErrFailedToAddAccountBlockTransaction)", "nil", "recv.canRollback(a0.Block)", "chain.higherPriority(a0.Block,$fr.ByHeight(a0.Block.Identifier().Height)#0)"}, "the block enters through Manager.Add (parent check applies) in both the append and the replace path")
 	r.Guards([]row{{F: "common/db.(*memdbManager).Pop", C: "eq(recv.frontierIdentifier,recv.stableIdentifier)", Why: "pop stops at the stable state: confirmed blocks cannot be displaced by any pool operation"}})
 
 	// (4) momentum content
